@@ -383,13 +383,36 @@ pub fn run(sc: &Value) -> Vec<String> {
         }
         if w.starts_with(b"CONNECT ") {
             ph[ci] = (if gu(&cp, "status") / 100 == 2 && gso(&cp, "head_hex").is_none() { 1 } else { 2 }, w.len());
-            let mut bytes = if let Some(h) = gso(&cp, "head_hex") { unhex(h) } else { format!("HTTP/1.1 {} Connect\r\n\r\n", gu(&cp, "status")).into_bytes() };
+            let mut bytes = if let Some(h) = gso(&cp, "head_hex") {
+                unhex(h)
+            } else {
+                match gs(&cp, "garbage") {
+                    "nostatus" => b"HTTP/1.1\r\n\r\n".to_vec(),
+                    "lfonly" => format!("HTTP/1.1 {} Connect\nX-P: yes\r\n\r\n", gu(&cp, "status")).into_bytes(),
+                    "binary" => vec![0x16, 0x03, 0x01, 0x00, 0x05, 0xff, 0x00, 0x0d, 0x0a, 0x0d, 0x0a],
+                    "nocolon" => format!("HTTP/1.1 {} Connect\r\nno colon here\r\n\r\n", gu(&cp, "status")).into_bytes(),
+                    "empty" => vec![],
+                    "declared-length" => format!("HTTP/1.1 {} Connect\r\nContent-Length: {}\r\n\r\n", gu(&cp, "status"), gu(&cp, "body")).into_bytes(),
+                    _ => {
+                        if gs(&cp, "head") == "two" {
+                            format!("HTTP/1.1 {} Connect\r\nX-P: yes\r\n\r\n", gu(&cp, "status")).into_bytes()
+                        } else {
+                            format!("HTTP/1.1 {} Connect\r\n\r\n", gu(&cp, "status")).into_bytes()
+                        }
+                    }
+                }
+            };
             let blen = gu(&cp, "body");
             for i in 0..blen {
                 bytes.push(b"PROXYBODY"[i % 9]);
             }
-            if let Some(cut) = guo(&cp, "cut") {
-                bytes.truncate(cut);
+            let cut_at = cp.get("cutAt").and_then(|x| x.as_i64()).unwrap_or(-1);
+            if cut_at >= 0 && cut_at < 999 {
+                bytes.truncate(cut_at as usize);
+            }
+            let valid = cp.get("valid").and_then(|x| x.as_bool()).unwrap_or(true);
+            if !valid {
+                ph[ci].0 = 2;
             }
             let close = ph[ci].0 == 2;
             return Some(Reply { bytes, close });
@@ -479,7 +502,14 @@ pub fn run(sc: &Value) -> Vec<String> {
             }
         }
         fn fin<B: attohttpc::body::Body>(rb: attohttpc::RequestBuilder<B>) -> Result<(u16, String), String> {
-            let rp = rb.send().map_err(|e| err_kind(&e))?;
+            let rp = rb.send().map_err(|e| {
+                if let attohttpc::ErrorKind::ConnectError { body, .. } = e.kind() {
+                    let pat: Vec<u8> = (0..body.len()).map(|i| b"PROXYBODY"[i % 9]).collect();
+                    format!("{}|{}|{}", err_kind(&e), body.len(), lcp(body, &pat))
+                } else {
+                    err_kind(&e)
+                }
+            })?;
             Ok((rp.status().as_u16(), rp.url().as_str().to_string()))
         }
         let len = gu(&body_spec, "len");
@@ -597,14 +627,21 @@ pub fn run(sc: &Value) -> Vec<String> {
                 "leaks":marker_count(reqbytes, &secrets)},
             "written":c.written.len()}).to_string());
     }
-    let mut done = json!({"ev":"done","res":"err","kind":"","status":0,"url":{"sch":"-","host":"-","port":0,"path":[],"q":"-"},"nconn":w.conns.iter().filter(|c| c.dial.is_some()).count()});
+    let mut done = json!({"ev":"done","res":"err","kind":"","status":0,"url":{"sch":"-","host":"-","port":0,"path":[],"q":"-"},"cbodyLen":0,"cbodyLcp":0,"nconn":w.conns.iter().filter(|c| c.dial.is_some()).count()});
     match result {
         Ok(Ok((st, u))) => {
             done["res"] = json!("ok");
             done["status"] = json!(st);
             done["url"] = parse_abs(&u).unwrap_or(json!({"sch":"?","host":"?","port":0,"path":[],"q":"-"}));
         }
-        Ok(Err(k)) => done["kind"] = json!(k),
+        Ok(Err(k)) => {
+            let parts: Vec<&str> = k.split('|').collect();
+            done["kind"] = json!(parts[0]);
+            if parts.len() == 3 {
+                done["cbodyLen"] = json!(parts[1].parse::<usize>().unwrap());
+                done["cbodyLcp"] = json!(parts[2].parse::<usize>().unwrap());
+            }
+        }
         Err(p) => {
             done["res"] = json!("panic");
             done["kind"] = json!(panic_msg(&p));
